@@ -774,6 +774,32 @@ example : (streamRead false [115, 10, 1, 2, 3] 0 (some (-4))).map Prod.fst = .ok
 example : (streamRead false [115, 10, 1, 2, 3] 0 (some 1000000)).map Prod.fst = .ok [1, 2, 3] := by decide
 example : (streamRead false [115, 10, 1, 2, 3] 0 none).map Prod.fst = .ok [] := by decide
 
+/-! ## Round 6: the keys of the stream dictionary -/
+
+/-- The chain theorem through the stream dictionary: whichever of the keys `get_filters` reads
+(`FILTER_KEYS` = `F`, `Filter`; `PARMS_KEYS` = `DP`, `DecodeParms`, `FDecodeParms` - regenerated from
+pdftypes.py) carries the `Filter` array and the `DecodeParms` array of the chain, the stream decodes
+to the payload. -/
+theorem stream_keys_rt {inflate : Bytes → Bytes} (stages : List (Stage inflate)) (x z : Bytes)
+    (h : ChainEncodes stages x z) (kf kp : Bytes) (hkf : kf ∈ FILTER_KEYS) (hkp : kp ∈ PARMS_KEYS) :
+    streamDecodeDict inflate [(kf, .list (stages.map (·.filt.1)))] [(kp, .list (stages.map (·.filt.2)))] z = .ok x := by
+  have hf : getAny FILTER_KEYS [(kf, FilterVal.list (stages.map (·.filt.1)))]
+      = some (.list (stages.map (·.filt.1))) := by
+    simp only [FILTER_KEYS, List.mem_cons, List.not_mem_nil, or_false] at hkf
+    rcases hkf with rfl | rfl <;> rfl
+  have hp : getAny PARMS_KEYS [(kp, ParmsVal.list (stages.map (·.filt.2)))]
+      = some (.list (stages.map (·.filt.2))) := by
+    simp only [PARMS_KEYS, List.mem_cons, List.not_mem_nil, or_false] at hkp
+    rcases hkp with rfl | rfl | rfl <;> rfl
+  simp only [streamDecodeDict, hf, hp, Option.getD_some]
+  exact stream_chain_rt stages x z h
+
+/-- `F` wins over `Filter`, `DP` over `DecodeParms` over `FDecodeParms`, unrelated keys are ignored. -/
+example : streamFilters [([70, 105, 108, 116, 101, 114], .name [70, 108]), ([88], .name [1]), ([70], .name [65, 72, 120])]
+    [([70, 68, 101, 99, 111, 100, 101, 80, 97, 114, 109, 115], .dict ⟨some 2, none, none, none⟩),
+     ([68, 80], .dict ⟨some 12, none, none, none⟩)]
+    = [([65, 72, 120], some ⟨some 12, none, none, none⟩)] := rfl
+
 /-! ## Round 6: `Length` direct or indirect -/
 
 /-- `Length` direct or indirect: `int_value(dic["Length"])` gives the same value for the integer `n`
